@@ -170,6 +170,18 @@ Theorem C13_words_spec : forall (Ch : Type) (is_space : Ch -> bool) (s : list Ch
 Proof. exact words_spec. Qed.
 Print Assumptions C13_words_spec.
 
+(* words(s) are exactly the maximal runs of non-whitespace: s reads gap word gap word ... gap, gaps
+   are whitespace only, words are non-empty and whitespace-free, each word is followed by whitespace
+   or the end (no run is cut in two); and this decomposition determines the list of words *)
+Theorem C13_words_maximal_runs : forall (Ch : Type) (is_space : Ch -> bool) (s : list Ch),
+  words_of is_space s (sl_words is_space s) /\
+  forall ws, words_of is_space s ws -> ws = sl_words is_space s.
+Proof.
+  intros Ch is_space s. split; [apply words_maximal_runs|].
+  intros ws H. exact (words_of_functional Ch is_space s ws H _ (words_maximal_runs Ch is_space s)).
+Qed.
+Print Assumptions C13_words_maximal_runs.
+
 (* xs ** ys in row-major order: element i*len(ys)+j is [xs[i], ys[j]] *)
 Theorem C13_cartesian_product_order : forall (A : Type) (xs ys : list A) d,
   length (sl_cartesian [xs; ys]) = length xs * length ys /\
